@@ -26,6 +26,7 @@ CLAIMS = {
  "C10": ("model_checking", "Thin.tla: every ThinArc sits on a block whose recorded length is the slice length; thin<->fat conversions count-neutral; mismatching into_thin panics and releases; with_arc_mut write-back on return and on unwind after replace/swap. Every transition (plus random walks) replayed; thin view compared with the fat view address for address; Layout.tla length-word offset over the matrix.", N_GRAPH + "; " + N_LAY, T_GRAPH + " + " + T_LAY, "DESIGN.md §6 C10"),
  "C11": ("model_checking", "Layout.tla data offsets and from_raw inversion over the matrix; pointer values of every accessor compared with the allocator's block address and the specification's offsets for every shape and into/from pairing; raw round trips in the handle-level graph.", N_LAY + "; " + N_GRAPH, T_LAY + " + " + T_GRAPH, "DESIGN.md §6 C11"),
  "C12": ("model_checking", "ArcUnion variant/typed-release invariants on the specification, union histories interleaved with plain Arcs replayed; tag bit free and typed layout over ordered shape pairs of the matrix.", N_GRAPH + "; " + N_LAY, T_GRAPH + " + " + T_LAY, "DESIGN.md §6 C12"),
+ "C14": ("model_checking", "Compare.tla: coherence laws (eq iff partial_cmp = Equal, duality, header-then-slice order, eq implies hash-eq, see-through with the same-allocation licence) checked by TLC on every pair of the exhaustive small domain for three carriers; the reference table it exports is compared with the real value types and with every handle kind (Arc, ThinArc, OffsetArc, ArcBorrow, ArcUnion) including relational operators, hashing, Debug/Display and map-key use. Known deviations are listed in known_findings.json.", "reference semantics = Compare.tla's ValEq/ValCmp; exhaustive over the small domain only", "TLA+ comparison specification checked by TLC; TLC-exported reference table compared with the real impls on all pairs", "DESIGN.md §6 C14"),
  "C15": ("model_checking", "Uninit.tla: no slot object destroyed unless written and released through an init-typed handle, header destroyed exactly once, assume_init changes the type only, refused deprecated writes change nothing; every transition over every subset of written slots, constructor, sharing state and drop/assume_init order replayed with identity-tracked header (sized and zero-sized) and elements and fresh-memory poison.", N_GRAPH, T_GRAPH, "DESIGN.md §6 C15"),
 }
 NA = {
